@@ -428,7 +428,7 @@ def _orient (rng, env):
     return R
 # end def _orient
 
-def fam_free (rng, fam = None, seg_hi = 1 / 21., seg_lo = 1 / 100., nmax = 60, equal_junction = True):
+def fam_free (rng, fam = None, seg_hi = 1 / 21., seg_lo = 1 / 100., nmax = 60, equal_junction = True, shift = True):
     """ free-space structure family; returns spec (geo + feeds list of
         candidate feed locations (at, dir)) without sources
     """
@@ -437,6 +437,8 @@ def fam_free (rng, fam = None, seg_hi = 1 / 21., seg_lo = 1 / 100., nmax = 60, e
     f, lam, segl, rad = pick_scale (rng, seg_lo, seg_hi)
     R = rot_matrix (rng)
     T = rng.uniform (-1, 1, 3) * lam * float (rng.choice ([0, 0, 1, 10]))
+    if not shift:
+        T = T * 0
     P = lambda v: R @ np.asarray (v, float) + T
     geo, feeds = [], []
     def seglen (k = 1.0):
@@ -507,13 +509,15 @@ def fam_free (rng, fam = None, seg_hi = 1 / 21., seg_lo = 1 / 100., nmax = 60, e
     return spec
 # end def fam_free
 
-def fam_ground (rng, fam = None, seg_hi = 1 / 21., seg_lo = 1 / 100., media = 'ideal'):
+def fam_ground (rng, fam = None, seg_hi = 1 / 21., seg_lo = 1 / 100., media = 'ideal', shift = True):
     """ structure family over a ground plane (z = 0) """
     fams = ['mono', 'slope', 'invL', 'Tgnd', 'two', 'hdip', 'bent', 'gp']
     fam  = fam or str (rng.choice (fams))
     f, lam, segl, rad = pick_scale (rng, seg_lo, seg_hi)
     R = rot_z (rng.uniform (0, 2 * np.pi))
     T = np.append (rng.uniform (-1, 1, 2) * lam * float (rng.choice ([0, 0, 1, 5])), 0.0)
+    if not shift:
+        T = T * 0
     P = lambda v: R @ np.asarray (v, float) + T
     geo, feeds = [], []
     def add (n, a, b, r = None, feed_at = None, rev = False):
